@@ -47,13 +47,21 @@ fcppt::container::bitfield::proxy<StoredType>::proxy(proxy const &) = default;
 template <typename StoredType>
 fcppt::container::bitfield::proxy<StoredType>::proxy(proxy &&) noexcept = default;
 
+// Assigning a proxy assigns the bit it refers to (as for std::bitset::reference);
+// the defaulted operators would only rebind this (usually temporary) proxy.
 template <typename StoredType>
 fcppt::container::bitfield::proxy<StoredType> &
-fcppt::container::bitfield::proxy<StoredType>::operator=(proxy const &) = default;
+fcppt::container::bitfield::proxy<StoredType>::operator=(proxy const &_other)
+{
+  return *this = static_cast<fcppt::container::bitfield::value_type>(_other);
+}
 
 template <typename StoredType>
 fcppt::container::bitfield::proxy<StoredType> &
-fcppt::container::bitfield::proxy<StoredType>::operator=(proxy &&) noexcept = default;
+fcppt::container::bitfield::proxy<StoredType>::operator=(proxy &&_other) noexcept
+{
+  return *this = static_cast<fcppt::container::bitfield::value_type>(_other);
+}
 
 namespace fcppt::container::bitfield
 {
